@@ -40,7 +40,7 @@ PIPES: Dict[str, List[str]] = {
     # beyond the small scope: every run puts fresh containers of 40 items into the context (a sweep's <var>_values, a sliced probe's list)
     "wide-values": ["sweep_src40", "slice_mul3", "slice_probe", "sum", "muldef"],
 }
-PIPE_CTX: Dict[str, Dict[str, Any]] = {"context-key-bound": {"x_values": [0.0, 1.0, 2.0], "y_values": [1.0, 3.0, 7.0]}, "keyword-only": {"factor": 5.0}, "context-none": {"r": None, "a": None}}
+PIPE_CTX: Dict[str, Dict[str, Any]] = {"context-default": {"factor": 5.0}, "context-key-bound": {"x_values": [0.0, 1.0, 2.0], "y_values": [1.0, 3.0, 7.0]}, "keyword-only": {"factor": 5.0}, "context-none": {"r": None, "a": None}}
 WAYS = ["reused-pipeline", "fresh-pipelines", "cli-launch", "queue-worker", "reused-pipeline-traced", "fresh-pipelines-traced", "cli-launch-traced"]
 
 
